@@ -147,6 +147,8 @@ def run_config(cfg, e):
         mdl.spike_templates = snp.ndarray(snp._fromlist(st, (NT,)), 'int32')
         mdl.n_templates = T
         mdl.spike_waveforms = None
+        scl = [e.int('scl%d' % i, 0, T - 1) for i in range(NT)]
+        mdl.spike_clusters = snp.ndarray(snp._fromlist(scl, (NT,)), 'int32')     # curated: may differ from templates
         if kind in ('features', 'tfeatures'):
             ncl = 2
             npcs = 2
@@ -169,7 +171,7 @@ def run_config(cfg, e):
                 mdl.sparse_features = Bunch(data=data, cols=cols, rows=rows_arr)
                 e.case_builder = lambda ev: {'kind': kind, 'stored': stored if cfg['rows'] else None, 'q': q,
                                              'data': ev(flat), 'cols': None if crow is None else [ev(r) for r in crow],
-                                             'req': ev(req), 'st': ev(st), 'NT': NT}
+                                             'req': ev(req), 'st': ev(st), 'scl': ev(scl), 'NT': NT}
                 try:
                     out = snp.asarray(mdl.get_features(qa, snp.ndarray(snp._fromlist(req, (len(req),)), 'int64')))
                 except Exception as ex:
@@ -196,7 +198,7 @@ def run_config(cfg, e):
                 mdl.sparse_template_features = Bunch(data=data, cols=cols, rows=rows_arr)
                 e.case_builder = lambda ev: {'kind': kind, 'stored': stored if cfg['rows'] else None, 'q': q,
                                              'data': ev(flat), 'cols': None if crow is None else [ev(r) for r in crow],
-                                             'st': ev(st), 'NT': NT}
+                                             'st': ev(st), 'scl': ev(scl), 'NT': NT}
                 try:
                     out = snp.asarray(mdl.get_template_features(qa))
                 except Exception as ex:
@@ -343,6 +345,8 @@ def replay(case):
         q = case['q']
         mdl = object.__new__(mod.TemplateModel)
         mdl.spike_templates = np.array(st, dtype=np.int32)
+        mdl.spike_clusters = np.array(case.get('scl', st), dtype=np.int32)
+        mdl.template_ids = np.unique(mdl.spike_templates)
         mdl.n_templates = T
         mdl.spike_waveforms = None
         rows = np.array(stored, dtype=np.int64) if case['stored'] is not None else None
